@@ -5734,7 +5734,7 @@ struct CoreT {
 	HFSM2_IF_PLANS(PlanData planData);
 	HFSM2_IF_TRANSITION_HISTORY(TransitionTargets transitionTargets{INVALID_SHORT});
 	HFSM2_IF_TRANSITION_HISTORY(TransitionSets previousTransitions);
-	HFSM2_IF_UTILITY_THEORY(RNG& rng);
+	HFSM2_IF_UTILITY_THEORY(RNG* rng);
 	HFSM2_IF_LOG_INTERFACE(Logger* logger);
 };
 
@@ -5750,7 +5750,7 @@ CoreT<TArgs>::CoreT(Context& context_
 				  HFSM2_IF_UTILITY_THEORY(, RNG& rng_)
 				  HFSM2_IF_LOG_INTERFACE(, Logger* const logger_)) noexcept
 	: context{context_}
-	HFSM2_IF_UTILITY_THEORY(, rng{rng_})
+	HFSM2_IF_UTILITY_THEORY(, rng{&rng_})
 	HFSM2_IF_LOG_INTERFACE(, logger{logger_})
 {}
 
@@ -5760,7 +5760,7 @@ CoreT<TArgs>::CoreT(PureContext&& context_
 				  HFSM2_IF_UTILITY_THEORY(, RNG& rng_)
 				  HFSM2_IF_LOG_INTERFACE(, Logger* const logger_)) noexcept
 	: context{move(context_)}
-	HFSM2_IF_UTILITY_THEORY(, rng	{rng_	})
+	HFSM2_IF_UTILITY_THEORY(, rng	{&rng_	})
 	HFSM2_IF_LOG_INTERFACE (, logger{logger_})
 {}
 
@@ -5786,7 +5786,7 @@ CoreT<TArgs>::CoreT(CoreT&& other) noexcept
 	HFSM2_IF_PLANS			   (, planData			 {move(other.planData			)})
 	HFSM2_IF_TRANSITION_HISTORY(, transitionTargets  {move(other.transitionTargets	)})
 	HFSM2_IF_TRANSITION_HISTORY(, previousTransitions{move(other.previousTransitions)})
-	HFSM2_IF_UTILITY_THEORY	   (, rng				 {move(other.rng				)})
+	HFSM2_IF_UTILITY_THEORY	   (, rng				 {other.rng						})
 	HFSM2_IF_LOG_INTERFACE	   (, logger			 {move(other.logger				)})
 {}
 
@@ -12554,7 +12554,7 @@ C_<TN_, TA_, SG_, TH_, TS_...>::resolveRandom(Control& control,
 											  const Ranks& ranks,
 											  const Rank top) const noexcept
 {
-	const Utility random = control._core.rng.next();
+	const Utility random = control._core.rng->next();
 	HFSM2_ASSERT(0.0f <= random && random < 1.0f);
 
 	Utility cursor = random * sum;
@@ -17449,7 +17449,7 @@ public:
 	HFSM2_CONSTEXPR(NO) RC_(const RC_& )														noexcept = default;
 	HFSM2_CONSTEXPR(NO) RC_(	  RC_&&)														noexcept = default;
 
-private:
+protected:
 	using Base::_core;
 };
 
@@ -17529,7 +17529,7 @@ public:
 public:
 	using Base::Base;
 
-private:
+protected:
 	using Base::_core;
 };
 
@@ -17625,7 +17625,7 @@ public:
 
 	HFSM2_CONSTEXPR(14)	void setContext(Context context)										noexcept	{ _core.context = context; }
 
-private:
+protected:
 	using Base::_core;
 };
 
@@ -17895,6 +17895,24 @@ public:
 			 , static_cast<RNGT<TUtility>&>(*this)
 			 HFSM2_IF_LOG_INTERFACE(, logger)}
 	{}
+
+	/// @brief A copy draws from its own generator, which continues the original's sequence
+	HFSM2_CONSTEXPR(14)	InstanceT(const InstanceT& other)											noexcept
+		: RNGT<TUtility>{static_cast<const RNGT<TUtility>&>(other)}
+		, Base{static_cast<const Base&>(other)}
+	{
+		this->_core.rng = this;
+	}
+
+	HFSM2_CONSTEXPR(14)	InstanceT(InstanceT&& other)												noexcept
+		: RNGT<TUtility>{static_cast<RNGT<TUtility>&&>(other)}
+		, Base{static_cast<Base&&>(other)}
+	{
+		this->_core.rng = this;
+	}
+
+	InstanceT& operator = (const InstanceT&) = delete;
+	InstanceT& operator = (InstanceT&&)		 = delete;
 };
 
 // TContext == EmptyContext
@@ -17975,6 +17993,24 @@ public:
 		, Base{static_cast<RNGT<TUtility>&>(*this)
 			 HFSM2_IF_LOG_INTERFACE(, logger)}
 	{}
+
+	/// @brief A copy draws from its own generator, which continues the original's sequence
+	HFSM2_CONSTEXPR(14)	InstanceT(const InstanceT& other)											noexcept
+		: RNGT<TUtility>{static_cast<const RNGT<TUtility>&>(other)}
+		, Base{static_cast<const Base&>(other)}
+	{
+		this->_core.rng = this;
+	}
+
+	HFSM2_CONSTEXPR(14)	InstanceT(InstanceT&& other)												noexcept
+		: RNGT<TUtility>{static_cast<RNGT<TUtility>&&>(other)}
+		, Base{static_cast<Base&&>(other)}
+	{
+		this->_core.rng = this;
+	}
+
+	InstanceT& operator = (const InstanceT&) = delete;
+	InstanceT& operator = (InstanceT&&)		 = delete;
 };
 
 #endif
